@@ -290,7 +290,7 @@ def run(ctx):
     proved = ctx.prove('C14', THEOREMS)
     rng = ctx.rng
     cases = []
-    n = 600 if ctx.thorough else 150
+    n = 4000 if ctx.thorough else 150
     for i in range(n):
         ttl = rng.choice([Fraction(1), Fraction(2), Fraction(15)])
         script = gen_script(rng, rng.randint(4, 45), ttl)
